@@ -2,6 +2,7 @@ package geojson
 
 import (
 	"encoding/json"
+	"math"
 
 	"github.com/ctessum/geom"
 )
@@ -15,6 +16,12 @@ func decodeCoordinates(jsonCoordinates interface{}) []float64 {
 	for i, element := range array {
 		var ok bool
 		if coordinates[i], ok = element.(float64); !ok {
+			panic(&InvalidGeometryError{})
+		}
+		// A JSON document cannot hold NaN or an infinity, but a Geometry
+		// value built by hand can; Encode refuses such coordinates, so a
+		// geometry made from them could not be written back.
+		if math.IsNaN(coordinates[i]) || math.IsInf(coordinates[i], 0) {
 			panic(&InvalidGeometryError{})
 		}
 	}
